@@ -36,7 +36,8 @@ inductive Act where
   | submit (i : Nat)           -- the main thread submits branch i (in index order; executor.py:252-255)
   | begin (i : Nat)            -- a pool worker takes branch i from the head of the work queue
   | finish (i : Nat) (f : Fin) -- branch i's task ends; the done-callback runs in the worker
-  | timerFire (i : Nat) (ckOk : Bool)  -- the timer thread resumes branch i (refresh checkpoint ok / failed)
+  | timerFire (i : Nat)        -- the timer thread pops the due entry of branch i and resets the branch to PENDING
+  | resubmit (i : Nat) (ckOk : Bool)   -- ... and, after its refresh checkpoint (ok / failed), submits the branch again
   | tick (d : Nat)             -- time passes
   | cancel (i : Nat)           -- the woken main thread cancels branch i's task before a worker started it
   | wake                       -- the main thread leaves `execute` (remaining queued tasks cancelled, outcome fixed)
@@ -66,6 +67,7 @@ structure St where
   out : Option Outcome        -- set by `wake`
   maxActive : Nat             -- ghost: high-water mark of `active.length`
   submitted : Nat             -- how many of the initial tasks the main thread has submitted so far
+  refreshing : Option Nat     -- the branch whose resumption is between reset_to_pending and its re-submission
 
 /-- `execute` before the first task is submitted, for n > 0 branches: every branch is PENDING
 (`ExecutableWithState.__init__`).  The main thread then submits the branches one by one (`submit`), and only after
@@ -75,7 +77,7 @@ def init (n maxConc : Nat) (cfg : Policy.Cfg) : St :=
   { n := n, maxWorkers := if maxConc = 0 then n else maxConc, cfg := cfg,
     status := fun i => if i < n then .pending else .completed,
     queue := [], active := [], succ := 0, fail := 0, evt := false, suspendExc := none,
-    fatal := false, clock := 0, timers := [], out := none, maxActive := 0, submitted := 0 }
+    fatal := false, clock := 0, timers := [], out := none, maxActive := 0, submitted := 0, refreshing := none }
 
 def setStatus (s : St) (i : Nat) (b : BSt) : St :=
   { s with status := fun x => if x = i then b else s.status x }
@@ -133,7 +135,9 @@ the branch is submitted again (RUNNING) - unless completion or suspension has al
 completion event is set): then the resubmitter, which checks the event and submits under the callbacks' lock,
 leaves the branch PENDING and starts nothing (fix: no user code is started after the decision).  A failing
 refresh checkpoint is fatal. -/
-def timerFire (s : St) (i : Nat) (ckOk : Bool) : Option St :=
+def timerFire (s : St) (i : Nat) : Option St :=
+  if s.refreshing.isSome then none          -- one timer thread: the previous resumption is still being refreshed
+  else
   match s.timers with
   | [] => none
   | _ =>
@@ -147,12 +151,21 @@ def timerFire (s : St) (i : Nat) (ckOk : Bool) : Option St :=
         let s := { s with timers := s.timers.erase e }
         match s.status i with
         | .suspendedUntil t =>
-          if t ≤ s.clock then
-            (if ¬ ckOk then some { (setStatus s i .pending) with fatal := true, evt := true }
-             else if s.evt then some (setStatus s i .pending)   -- already decided: the branch is not started again
-             else some { (setStatus s i .running) with queue := s.queue ++ [i] })
+          if t ≤ s.clock then some { (setStatus s i .pending) with refreshing := some i }   -- reset_to_pending, then the resubmitter
           else some s
         | _ => some s
+
+/-- Second half of a resumption (the `resubmitter`, executor.py:222-240), after the blocking refresh checkpoint: a
+failed refresh is fatal; once completion or suspension has been decided the branch is left PENDING and nothing is
+started (the event is checked and the task submitted under the callbacks' lock); otherwise the task is queued and the
+branch is RUNNING.  Other threads (the main thread still submitting, callbacks, workers) run between the two halves. -/
+def resubmit (s : St) (i : Nat) (ckOk : Bool) : Option St :=
+  if s.refreshing ≠ some i then none
+  else
+    let s := { s with refreshing := none }
+    if ¬ ckOk then some { s with fatal := true, evt := true }
+    else if s.evt then some s
+    else some { (setStatus s i .running) with queue := s.queue ++ [i] }
 
 def tick (s : St) (d : Nat) : Option St := some { s with clock := s.clock + d }
 
@@ -187,7 +200,8 @@ def step (s : St) : Act → Option St
   | .submit i => submit_ s i
   | .begin i => begin_ s i
   | .finish i f => finish s i f
-  | .timerFire i ok => timerFire s i ok
+  | .timerFire i => timerFire s i
+  | .resubmit i ok => resubmit s i ok
   | .tick d => tick s d
   | .cancel i => cancel_ s i
   | .wake => wake s
